@@ -106,13 +106,14 @@ var c12Chars []string
 // c12Data: one of the data shapes, leaves symbolic.
 func c12Data(maxLen int) ipld.Node {
 	switch vChoose("kind", 6) {
-	case 0: // map {a: int, b: list(2), "": int}
+	case 0: // map {a: int, b: list(2), "": int, c: null}
 		a, e := c12Int("ma"), c12Int("me")
 		b := c12List(2, "mb")
-		nd, err := qp.BuildMap(basicnode.Prototype.Any, 3, func(ma datamodel.MapAssembler) {
+		nd, err := qp.BuildMap(basicnode.Prototype.Any, 4, func(ma datamodel.MapAssembler) {
 			qp.MapEntry(ma, "a", qp.Int(a))
 			qp.MapEntry(ma, "b", qp.Node(b))
 			qp.MapEntry(ma, "", qp.Int(e))
+			qp.MapEntry(ma, "c", qp.Null()) // a key that is present and holds null
 		})
 		if err != nil {
 			vSkip("unreachable: map build failed")
@@ -165,7 +166,7 @@ func c12Seg(R int64) segment {
 		return segment{str: "[]", iterator: true, optional: opt}
 	case 2:
 		// field segments come from the parser (dotted and explicit forms, incl. the empty name)
-		texts := []string{`.a`, `.b`, `.c`, `.[""]`, `.["a"]`}
+		texts := []string{`.a`, `.b`, `.c`, `.[""]`, `.["a"]`, `.d`}
 		t := texts[vChoose("field", len(texts))]
 		if opt {
 			t += "?"
@@ -230,7 +231,7 @@ const (
 	c12Error
 )
 
-func c12FieldName(choice int) string { return []string{"a", "b", "c", "", "a"}[choice] }
+func c12FieldName(choice int) string { return []string{"a", "b", "c", "", "a", "d"}[choice] }
 
 // c12RefSingle: the documented meaning of one segment on a (non-nil) value.
 func c12RefSingle(seg segment, fieldChoice int, d ipld.Node) (ipld.Node, int) {
@@ -360,7 +361,7 @@ func VerifC12Single() {
 	case 1:
 		seg = segment{str: "[]", iterator: true, optional: opt}
 	case 2:
-		texts := []string{`.a`, `.b`, `.c`, `.[""]`, `.["a"]`}
+		texts := []string{`.a`, `.b`, `.c`, `.[""]`, `.["a"]`, `.d`}
 		fieldChoice = vChoose("field", len(texts))
 		t := texts[fieldChoice]
 		if opt {
